@@ -408,6 +408,19 @@ func ruleStoreLoadAtomic(c *Ctx, a *cacheAnchors) {
 		if len(pr.Results) == 0 {
 			return
 		}
+		// the loader runs inside the locked lookup: it calls no method that takes an entry's lock (on the live
+		// entry that dead-locks, on the scratch entry the lock is a nil pointer)
+		for _, e := range pr.Events {
+			if e.Kind == "call" && e.Callee != nil && e.Callee.Signature.Recv() != nil && strings.HasSuffix(e.Callee.Signature.Recv().Type().String(), "cache.httpCache") && e.Callee.Object() != nil && e.Callee.Object().Exported() {
+				switch e.Callee.Name() {
+				case "Bytes", "FromBytes":
+				default:
+					if len(bad) < 3 {
+						bad = append(bad, fmt.Sprintf("the loader calls %s, which takes the entry lock: the lookup already holds the live entry's, and the scratch entry's is nil (a panic that leaves the key locked for ever) on path [%s]", funcName(e.Callee), condString(pr.Conds)))
+					}
+				}
+			}
+		}
 		errT := pr.Results[len(pr.Results)-1]
 		changed := []string{}
 		for _, f := range fields {
